@@ -195,4 +195,14 @@ def run(ck):
     impl_k, mod_k, ic_k = asmk.run_both(harness, model, kprogs, syms=True)
     ck.evaluations += len(kprogs)
     asmk.k_check(ck, kprogs, impl_k, mod_k, ic_k, syms=True)
+    # the known case: @isdef .x inside a macro argument is bound to the scope at the call
+    kp = "@macro wrap, 1, body\nbody\n@endmacro\nFoo:\n.x: @db $aa\nwrap { Bar: @db @isdef %s }\n"
+    kr = [AsmResult(r) for r in run_cases(harness, [asm_case("z80", text=kp % v) for v in (".x", "Bar.x")], shards=1)]
+    ck.evaluations += 2
+    if kr[0].canon() != kr[1].canon():
+        if kr[0].canon() == "OK aa01" and kr[1].canon() == "OK aa00":
+            ck.known_hit("isdef-in-macro-argument-bound-at-call-site", "`wrap { Bar: @db @isdef .x }` under Foo gives aa01, with `Bar.x` aa00")
+        else:
+            ck.violation("`wrap { Bar: @db @isdef .x }` gives %s, its qualified rewrite %s" % (kr[0].canon(), kr[1].canon()),
+                         {"mode": "asm", "arch": "z80", "source": kp % ".x", "expected": kr[1].canon()})
     return ck
